@@ -111,8 +111,19 @@ func (f *flattener) applies(obj *graphql.Object, fragment *graphql.Fragment) (bo
 // selections of each fragment, but does not descend down recursively into those
 // selections.
 func (f *flattener) flattenFragments(selectionSet *graphql.SelectionSet, typ *graphql.Object, target *[]*graphql.Selection) error {
-	// Start with the non-fragment selections.
-	*target = append(*target, selectionSet.Selections...)
+	// Start with the non-fragment selections. Selections excluded by their
+	// directives are dropped here: once same-alias selections are merged, the
+	// directives of the individual copies can no longer be told apart.
+	for _, selection := range selectionSet.Selections {
+		ok, err := graphql.ShouldIncludeNode(selection.Directives)
+		if err != nil {
+			return oops.Wrapf(err, "applying directive")
+		}
+		if !ok {
+			continue
+		}
+		*target = append(*target, selection)
+	}
 
 	// Descend into fragments matching the current type.
 	for _, fragment := range selectionSet.Fragments {
